@@ -44,6 +44,21 @@ Cfg ==
          aux    |-> { [ty |-> "", e |-> Bin("seq", Id("POP"), S(qq))], [ty |-> "_", e |-> Bin("seq", Un("push", S(b)), S(qq))] },
          ws     |-> {"none"},  cm |-> {"none"},
          sigma  |-> {97, 98, 113},  len |-> 5]
+    [] Slice = "shadow" ->   \* user rules named like non-keyword built-ins (see GOf)
+        [leaves |-> {Id("ASCII_DIGIT"), Id("NEWLINE"), Id("ASCII_ALPHA"), Id("LETTER"), S(a), Id("r1")},
+         unary  |-> {"opt", "rep", "not"},
+         binary |-> {"seq", "alt"},
+         size   |-> 3,
+         tyM    |-> {""},
+         aux    |-> { [ty |-> "", e |-> Id("ASCII_DIGIT")] },
+         ws     |-> {"none"},  cm |-> {"none"},
+         sigma  |-> {97, 49, 113, 10},  len |-> 3]
+    [] Slice = "pushws" ->   \* PUSH of composite expressions where implicit whitespace applies
+        [leaves |-> {}, unary |-> {}, binary |-> {}, size |-> 1,
+         tyM    |-> {"", "@", "!"},
+         aux    |-> { [ty |-> "@", e |-> Un("rep1", S(a))] },
+         ws     |-> {"_", ""},  cm |-> {"none"},
+         sigma  |-> {97, 98, 32},  len |-> 5]
     [] Slice = "core" ->
         [leaves |-> {S(a), S(b), Id("ANY"), Id("EOI"), Id("r1"), S(<<>>)},
          unary  |-> {"opt", "rep", "rep1", "not", "and"},
@@ -60,7 +75,7 @@ Cfg ==
          size   |-> 3,
          tyM    |-> {"", "_", "@", "$", "!"},
          aux    |-> { [ty |-> t, e |-> Bin("seq", S(a), S(b))] : t \in {"", "@", "$", "!"} },
-         ws     |-> {"", "_", "@", "$"},  cm |-> {"none", "_"},
+         ws     |-> {"", "_", "@", "$", "!"},  cm |-> {"none", "_", "!"},
          sigma  |-> {97, 98, 32, 35},  len |-> 3]
     [] Slice = "stack" ->
         [leaves |-> {S(a), Id("POP"), Id("PEEK"), Id("DROP"), Id("PEEK_ALL"), Id("POP_ALL"),
@@ -137,6 +152,13 @@ RestoreExprs ==
                 Bin("seq", Id("DROP"), Id("DROP")), Id("POP_ALL") }
   IN UNION { { Bin("seq", pre, Bin("seq", w, post)) : pre \in Pre, w \in W(f), post \in Post } : f \in F }
 
+PushWsExprs ==
+  LET X == { Bin("seq", S(a), S(a)), Bin("seq", Id("r1"), Id("r1")), Un("rep", S(a)), Un("rep1", S(a)),
+             Bin("seq", S(a), Un("opt", S(b))), [t |-> "exact", a |-> S(a), n |-> 2] }
+  IN { Bin("seq", Un("push", x), Bin("seq", S(b), Id("POP"))) : x \in X }
+     \cup { Bin("seq", Un("push", x), Id("PEEK")) : x \in X }
+     \cup { Un("rep", Bin("seq", Un("push", x), S(b))) : x \in X }
+
 \* ---- expression enumeration ----------------------------------------------------------
 MkUn(op, x) ==
   CASE op = "exact2"   -> [t |-> "exact", a |-> x, n |-> 2]
@@ -157,20 +179,29 @@ MaxLen == IF LenOverride > 0 THEN LenOverride ELSE Cfg.len
 Exprs == CASE Slice = "skip"   -> SkipExprs(MaxSize)
            [] Slice = "factor" -> FactorExprs
            [] Slice = "restore" -> RestoreExprs
+           [] Slice = "pushws" -> PushWsExprs
            [] OTHER -> UNION { ExprsOfSize(n) : n \in 1..MaxSize }
 
-WsRule(ty) == [ty |-> ty, e |-> S(sp)]
-CmRule(ty) == [ty |-> ty, e |-> S(hash)]
+\* WHITESPACE / COMMENT bodies: a literal, or (wb = "rule") a call of a non-silent helper rule, which
+\* makes the difference between @ and $ skip rules observable
+WsRule(ty, wb) == [ty |-> ty, e |-> IF wb = "rule" THEN Id("w1") ELSE S(sp)]
+CmRule(ty, wb) == [ty |-> ty, e |-> IF wb = "rule" THEN Bin("seq", S(hash), Un("opt", Id("w2"))) ELSE S(hash)]
+WBodies == IF Slice = "ws" THEN {"lit", "rule"} ELSE {"lit"}
 
 Grammars ==
-  { [m |-> [ty |-> tm, e |-> e], r1 |-> aux, ws |-> w, cm |-> c] :
-      tm \in Cfg.tyM, e \in Exprs, aux \in Cfg.aux, w \in Cfg.ws, c \in Cfg.cm }
+  { [m |-> [ty |-> tm, e |-> e], r1 |-> aux, ws |-> w, cm |-> c, wb |-> wb] :
+      tm \in Cfg.tyM, e \in Exprs, aux \in Cfg.aux, w \in Cfg.ws, c \in Cfg.cm, wb \in WBodies }
 
 \* the grammar as the record PegSemantics expects
+Shadows == [ASCII_DIGIT |-> [ty |-> "", e |-> S(<<113>>)],          \* ASCII_DIGIT = { "q" }
+            NEWLINE     |-> [ty |-> "_", e |-> S(<<113>>)],
+            ASCII_ALPHA |-> [ty |-> "@", e |-> S(<<49>>)],
+            LETTER      |-> [ty |-> "", e |-> S(<<49>>)]]
 GOf(x) ==
-  LET base == [m |-> x.m, r1 |-> x.r1]
-      w    == IF x.ws = "none" THEN base ELSE base @@ [WHITESPACE |-> WsRule(x.ws)]
-  IN IF x.cm = "none" THEN w ELSE w @@ [COMMENT |-> CmRule(x.cm)]
+  LET base == IF Slice = "shadow" THEN [m |-> x.m, r1 |-> x.r1] @@ Shadows ELSE [m |-> x.m, r1 |-> x.r1]
+      h    == IF x.wb = "rule" THEN base @@ [w1 |-> [ty |-> "", e |-> S(sp)], w2 |-> [ty |-> "", e |-> S(a)]] ELSE base
+      w    == IF x.ws = "none" THEN h ELSE h @@ [WHITESPACE |-> WsRule(x.ws, x.wb)]
+  IN IF x.cm = "none" THEN w ELSE w @@ [COMMENT |-> CmRule(x.cm, x.wb)]
 
 RECURSIVE Strings(_)
 Strings(n) == IF n = 0 THEN {<<>>} ELSE {<<>>} \cup { <<c>> \o s : c \in Cfg.sigma, s \in Strings(n - 1) }
